@@ -14,7 +14,10 @@ type Handle struct {
 	Qual  string
 	Kind  string
 	Ord   int
-	C     *Ctx
+	probe int
+	// OrdFinal, if set, replaces Ord once the instance's initialization callback has run.
+	OrdFinal *int
+	C        *Ctx
 	// LookupFn, if set, performs this instance's by-name lookups from inside its
 	// initialization callback (installed by the engine).
 	LookupFn func(h *Handle) error
@@ -33,12 +36,18 @@ func (h *Handle) OnInit(self any) error {
 	if err := h.C.Callback("init", h.ID, self); err != nil {
 		return err
 	}
+	if h.OrdFinal != nil {
+		h.Ord = *h.OrdFinal
+	}
 	return h.lookups()
 }
 
 func (h *Handle) OnAPS(self any) error {
 	if err := h.C.Callback("aps", h.ID, self); err != nil {
 		return err
+	}
+	if h.OrdFinal != nil {
+		h.Ord = *h.OrdFinal
 	}
 	return h.lookups()
 }
@@ -64,8 +73,31 @@ func (h *Handle) OnClose(self any) error {
 	}
 	err := h.C.Callback("close", h.ID, self)
 	h.C.Log("close-exit", h.ID, "")
+	if err != nil && h.C.Parallel {
+		// racesim: the error is an object of the application's own; whoever formats it reads it
+		err = &ProbeErr{H: h, Msg: err.Error()}
+	}
 	return err
 }
+
+// ProbeErr is the error of a failing closer in racesim. Formatting it reads a word of the
+// closer's own state; the application writes that word once App.Close has returned (Touch).
+// If the container still formats the error on a goroutine that App.Close did not wait for,
+// the race detector sees the two accesses unordered.
+type ProbeErr struct {
+	H   *Handle
+	Msg string
+}
+
+func (e *ProbeErr) Error() string {
+	if e.H.probe != 0 {
+		return e.Msg + " (closed)"
+	}
+	return e.Msg
+}
+
+// Touch is what the application does with a closer after App.Close has returned.
+func (h *Handle) Touch() { h.probe++ }
 
 // ShortStack returns the go-kid/ioc frames of the current stack.
 func ShortStack() string { return shortStack() }
